@@ -71,6 +71,7 @@ type World struct {
 	etsCache        map[string]ISet
 	ctabs           map[*ssa.Global]*ctabEntry // consttab.go
 	ctabRefs        map[string]*ctabRef
+	roCache         *roTables // roinit.go: read-only package tables
 }
 
 func loadWorld(repo string, cfg Config) (*World, error) {
